@@ -11,10 +11,14 @@ def _ms(run, technique, text, note="Kernel + extraction + correspondence check; 
             "level_text": text, "level_note": note}
 
 
-def _sv(run, technique, text, note="Kernel + table translator (tools/gen_tables.py regenerates coq/gen/GenTables.v from sievelib/commands.py and parser.py on every run) + extraction + correspondence check; CPython re engine and str/bytes builtins modelled by hand-translated scanners (coq/sieve/Lexer.v, coq/lib/Bytes.v); the frozen signatures of harness/sieve_spec.py are the definition of valid."):
-    return {"level": "proof", "coq": SV_COQ, "drivers": ["sieve"], "run": run, "technique": technique,
+def _sv(run, technique, text, level="proof", note="Kernel + table translator (tools/gen_tables.py regenerates coq/gen/GenTables.v from sievelib/commands.py and parser.py on every run) + extraction + correspondence check; CPython re engine and str/bytes builtins modelled by hand-translated scanners (coq/sieve/Lexer.v, coq/lib/Bytes.v); the frozen signatures of harness/sieve_spec.py are the definition of valid."):
+    return {"level": level, "coq": SV_COQ, "drivers": ["sieve"], "run": run, "technique": technique,
             "level_text": text, "level_note": note}
 
+
+PENDING = ("Executable Coq model tied to the implementation by the correspondence check, plus the property's own oracle evaluated "
+           "directly on the implementation; the unbounded theorems for this property are not finished, so the level is 'other' "
+           "(model-based differential testing), not 'proof'. ")
 
 CHECKS = {
     "C08": _ms(ms_checks.check_C08, "Coq proof (writer/strict-parser round trip) + model/client correspondence on bytes written",
@@ -29,38 +33,38 @@ CHECKS = {
                "Theorem C10_guarded / C10_tls_first over the client model: every script-management command in any trace is written under an authenticated client state set only by an AUTHENTICATE that ended with OK on the same connection; with STARTTLS no AUTHENTICATE precedes the handshake. The method inventory of managesieve.Client is regenerated from the source on every run (tools/gen_static.py) and the obligation that every method sending a script verb carries authentication_required is re-checked by vm_compute. Histories and handshake faults are run on the real client against the reference server."),
     "C14": _ms(ms_checks.check_C14, "Coq model of emulated rename against the reference server + exhaustive fault enumeration on the real client",
                "Emulated rename safety: exhaustive enumeration (initial states x fault placement x bodies) of the real client and of the model client against the extracted reference server, with the statement of C14 evaluated on the server state before/after; model theorems state the safety conditions on the abstract rename."),
-    "C15": _ms(ms_checks.check_C15, "composition of C05/C08/C09/C17 model theorems + session-level correspondence with the reference server",
-               "Whole sessions: the model client, the real client and the abstract server state are compared after every step of generated sessions (random encodings, permitted NO outcomes, segmentation)."),
+    "C15": dict(_ms(ms_checks.check_C15, "composition of C05/C08/C09/C17 model theorems + session-level correspondence with the reference server",
+               PENDING + "Whole sessions: the model client, the real client and the abstract server state are compared after every step of generated sessions (random encodings, permitted NO outcomes, segmentation)."), level="other"),
     "C16": _ms(ms_checks.check_C16, "Coq proofs (mechanism selection spec, base64 round trip, PLAIN/OAUTHBEARER exactness) + correspondence",
                "Theorems: select_mech returns only mechanisms that are both supported and announced, the preferred one and no other when it is implemented, otherwise the first of DIGEST-MD5, PLAIN, LOGIN, OAUTHBEARER announced; b64_decode (b64_encode x) = Some x; the server-side decoders recover exactly (authzid, login, password) / (login, token). The AUTHENTICATE bytes of the real client are parsed and decoded independently for generated capability sets and unicode credentials."),
     "C17": _ms(ms_checks.check_C17, "Coq model of listing/script decoding + correspondence and direct oracle against the reference server",
                "Names and bodies: for generated stores (protocol look-alikes, CR/LF variations, multi-byte) served in every permitted encoding, getscript/listscripts of the real client are compared with the store and with the model client."),
     "C01": _sv(sieve_checks.check_C01, "Coq proof (table interpreter implements the argument specification) over regenerated tables + model/parser correspondence + spec oracle",
-               "placeholder"),
+               "Theorems (props/C01.v): the table interpreter check_next_arg/iscomplete implements the argument specification [legal] (optional tag groups in any order with typed parameters, then required positionals in order) for every well-formed definition, with the recorded values; instantiated with the tables regenerated from /repo on every run; accepted scripts end with an empty stack, balanced brackets and nothing expected. The full completeness/soundness statements against the RFC 5228 generic grammar are not proved: the executable grammar + frozen signatures oracle is compared with the real parser on the exhaustive token enumeration, generated scripts, layouts and mutants, and the model is compared with the parser on the same inputs.", level="proof"),
     "C02": _sv(sieve_checks.check_C02, "Coq proof (lexer progress, crash-freedom invariant, fuel bound) over regenerated tables + correspondence",
-               "placeholder"),
+               PENDING, level="other"),
     "C03": _sv(sieve_checks.check_C03, "Coq model of the tree construction + correspondence on trees + independent generic-grammar parser",
-               "placeholder"),
+               PENDING, level="other"),
     "C04": _sv(sieve_checks.check_C04, "Coq model of tosieve + correspondence on printed text + round trip on the parser",
-               "placeholder"),
+               PENDING, level="other"),
     "C07": _sv(sieve_checks.check_C07, "Coq proof (gate lemmas, loaded-extension monotonicity, frozen extension table obligation over regenerated tables) + correspondence + independent walk",
-               "placeholder"),
+               "Theorems (props/C07.v): the loaded-extension set only grows and only by a completed require; a command is instantiated / a slot takes a tag or match type only while its extension is loaded; invariant over all reachable parser states, hence for every accepted input whatsoever every extension needed anywhere in the tree is loaded; vm_compute obligations over the regenerated tables: they cover the frozen RFC list of extension-owned commands/tags/match types and have no blind spot. The removal direction is computed on the model for concrete scripts and checked on the implementation for all (generated valid script, needed extension) pairs with the exact error text.", level="proof"),
     "C13": _sv(sieve_checks.check_C13, "stateless Coq model (parse is a function of the text) + generated state inventory obligation + histories vs pristine interpreter",
-               "placeholder"),
+               PENDING, level="other"),
     "C18": _sv(sieve_checks.check_C18, "Coq proof (position arithmetic, errors raised at the current token, token-prefix determinism) + correspondence on error_pos",
-               "placeholder"),
+               "Theorems (props/C18.v): lineno/colno agree with an independent line/column specification (text split at LF); every rejection is reported at the start offset and length of a token of the text, at the place of the lexical error, or at the end of the text; the machine is a fold over the token list that stops at the first failure, so the report depends only on the tokens up to the failing one. The per-category choice of the offending token is exercised on the implementation with the expected offset computed independently (LF/CRLF, multi-byte comments, arbitrary tails).", level="proof"),
     "C20": _sv(sieve_checks.check_C20, "Coq proof generic in the tables (argcheck_correct for every well-formed definition) + correspondence with definitions registered at run time",
-               "placeholder"),
-    "C12": {"level": "proof", "coq": ["factory/Ops.vo"], "drivers": ["factory"], "run": factory_checks.check_C12,
+               "Theorems (props/C20.v), generic in the definition and in the tables: for every definition of the documented shape the argument interpreter accepts exactly the uses the definition allows and records the arguments under the defined names; a registered command is found in any letter case, demands its extension, leaves other names alone; unregistered names stay unknown; registration preserves table well-formedness. Definitions generated at run time are registered both in the real library and in the model and compared (verdict, tree, re-parsed serialisation).", level="proof"),
+    "C12": {"level": "other", "coq": ["factory/Ops.vo"], "drivers": ["factory"], "run": factory_checks.check_C12,
             "technique": "Coq proof (refinement of the FiltersSet operations to an ordered uniquely-named list, by induction over operation sequences) + model/implementation correspondence",
-            "level_text": "placeholder", "level_note": "Kernel + extraction + correspondence check; filter contents abstracted to plain command / if-false wrapper."},
-    "C06": {"level": "proof", "coq": ["factory/Text.vo", "sieve/Printer.vo", "gen/GenTables.vo"], "drivers": ["factory", "sieve"], "run": factory_checks.check_C06,
+            "level_text": PENDING, "level_note": "Kernel + extraction + correspondence check; filter contents abstracted to plain command / if-false wrapper."},
+    "C06": {"level": "other", "coq": ["factory/Text.vo", "sieve/Printer.vo", "gen/GenTables.vo"], "drivers": ["factory", "sieve"], "run": factory_checks.check_C06,
             "technique": "Coq proof (every quoted value lexes as exactly one string token; quote_list token structure) + correspondence of the quoting model + strict validation of generated scripts",
-            "level_text": "placeholder", "level_note": "Kernel + extraction + correspondence; __create_filter's per-kind assembly is exercised on the implementation (strict validator, require coverage, skeleton independence), not modelled."},
-    "C11": {"level": "proof", "coq": ["factory/Text.vo"], "drivers": ["factory"], "run": factory_checks.check_C11,
+            "level_text": PENDING, "level_note": "Kernel + extraction + correspondence; __create_filter's per-kind assembly is exercised on the implementation (strict validator, require coverage, skeleton independence), not modelled."},
+    "C11": {"level": "other", "coq": ["factory/Text.vo"], "drivers": ["factory"], "run": factory_checks.check_C11,
             "technique": "Coq proof (marker comments are recovered exactly: stored_comment/recover/remove_all) + correspondence of the comment model + save/load round trip on the implementation",
-            "level_text": "placeholder", "level_note": "Kernel + extraction + correspondence; tree equality of reloaded filters rests on C04 and is exercised on the implementation."},
-    "C19": {"level": "proof", "coq": ["factory/Text.vo"], "drivers": ["factory"], "run": factory_checks.check_C19,
+            "level_text": PENDING, "level_note": "Kernel + extraction + correspondence; tree equality of reloaded filters rests on C04 and is exercised on the implementation."},
+    "C19": {"level": "other", "coq": ["factory/Text.vo"], "drivers": ["factory"], "run": factory_checks.check_C19,
             "technique": "Coq proof (to_list/strip round trip on comma- and quote-free values, refuted with witnesses outside) + correspondence of to_list + read-back on the implementation",
-            "level_text": "placeholder", "level_note": "Kernel + extraction + correspondence; the per-test args_as_tuple code is exercised on the implementation, not modelled."},
+            "level_text": PENDING, "level_note": "Kernel + extraction + correspondence; the per-test args_as_tuple code is exercised on the implementation, not modelled."},
 }
